@@ -302,6 +302,7 @@ def s_siblings(cx, rule, only=None):
                 continue
             if use_sum:
                 s = re.sub(r'\bSM[29]_', 'SMx_', '\n'.join(sums[name]))
+                s = _complement_norm(cx, s)
             else:
                 s = fn_shape(fn, cx.F)
             for a, b in sorted(sub.items(), key=lambda kv: -len(kv[0])):
@@ -375,6 +376,75 @@ def s_siblings(cx, rule, only=None):
 # the flag of the outer operation no longer is the carry-out.  The rule inspects every overflowing_add/overflowing_sub
 # whose flag is used and requires that no operand is `limb (+|-) carry` computed without its own flag, unless the
 # interval engine shows the limb is below the type maximum (mask/shift results).
+
+_COMPL = {'SMx_MODP_MONT_ONE': 'SMx_P', 'SMx_N_NEG': 'SMx_N'}
+
+
+def _complement_ok(cx):
+    """the constants named *_MODP_MONT_ONE / *_N_NEG are 2^256 minus the modulus (evaluated initialisers; every pair present in
+    the workspace must satisfy it, and at least one must be present)"""
+    if getattr(cx, '_compl_ok', None) is None:
+        from .facts import item_int
+        vals = {}
+        for k_, it in cx.F.items.items():
+            try:
+                vals[last(k_)] = item_int(it)
+            except Exception:
+                pass
+        n_, ok = 0, True
+        for pre in ('SM2_', 'SM9_'):
+            for neg, mod in (('MODP_MONT_ONE', 'P'), ('N_NEG', 'N')):
+                a_, b_ = vals.get(pre + neg), vals.get(pre + mod)
+                if a_ is None or b_ is None:
+                    continue
+                n_ += 1
+                ok = ok and a_ + b_ == (1 << 256)
+        cx._compl_ok = ok and n_ > 0
+    return cx._compl_ok
+
+
+def _complement_norm(cx, s):
+    """u256_add(x, 2^256 - m).0 and u256_sub(x, m).0 are the same 256-bit word (and likewise with add/sub exchanged): one
+    spelling, so that `r + (2^256 - m)` and `r - m` in a final correction compare equal.  Only the `.0` component: the
+    carry / borrow flags of the two differ."""
+    if 'SMx_MODP_MONT_ONE' not in s and 'SMx_N_NEG' not in s:
+        return s
+    if not _complement_ok(cx):
+        return s
+
+    def rw(t):
+        out, i = [], 0
+        while i < len(t):
+            m = re.compile(r'u256_(add|sub)\(').match(t, i)
+            if not m or (i > 0 and (t[i - 1].isalnum() or t[i - 1] == '_')):
+                out.append(t[i]); i += 1
+                continue
+            j, depth = m.end(), 1
+            while j < len(t) and depth:
+                depth += t[j] in '([{'
+                depth -= t[j] in ')]}'
+                j += 1
+            inner = t[m.end():j - 1]
+            # top-level split
+            parts, d_, cur = [], 0, ''
+            for ch in inner:
+                d_ += ch in '([{'
+                d_ -= ch in ')]}'
+                if ch == ',' and d_ == 0:
+                    parts.append(cur); cur = ''
+                else:
+                    cur += ch
+            parts.append(cur)
+            parts = [rw(p_.strip()) for p_ in parts]
+            op = m.group(1)
+            if t.startswith('.0', j) and len(parts) == 2 and parts[1] in _COMPL and not t.startswith('.0.', j):
+                out.append('u256_%s(%s, %s)' % ('sub' if op == 'add' else 'add', parts[0], _COMPL[parts[1]]))
+            else:
+                out.append('u256_%s(%s)' % (op, ', '.join(parts)))
+            i = j
+        return ''.join(out)
+    return '\n'.join(rw(l) for l in s.split('\n'))
+
 
 def _is_carry(e):
     from .prov import strip
